@@ -1110,24 +1110,30 @@ ComponentPtr flattenComponent(const ComponentEntityPtr &parent, ComponentPtr &co
         // Apply the re-based equivalence map onto the modified model.
         applyEquivalenceMapToModel(rebasedMap, flatModel);
 
-        StringStringMap unitNamesToReplace;
-        StringStringMap libraryNamesInFlatModel;
+        // If required units are imported units, they are instantiated inside the copy of the library first, all of them, while
+        // the copy still has every units of the library: the units they depend on (names of the model they come from) are
+        // then given names that no units of the library has. (Instantiated one by one in the loop below, after units handled
+        // earlier had been moved to the flat model, a dependency could take the name of such units and be mistaken for them.)
+        std::map<UnitsPtr, UnitsPtr> instantiatedImportedUnits;
         for (const auto &units : uniqueRequiredUnits) {
-            // If the required units are imported units, we will resolve those units here.
-            size_t unitsIndex = 0;
-            UnitsPtr flattenedUnits = nullptr;
             if (units->isImport()) {
-                auto foundUnits = clonedImportModel->units(units->name());
-                while (flattenedUnits == nullptr) {
-                    if (foundUnits->name() == clonedImportModel->units(unitsIndex)->name()) {
+                for (size_t unitsIndex = 0; unitsIndex < clonedImportModel->unitsCount(); ++unitsIndex) {
+                    if (clonedImportModel->units(unitsIndex) == units) {
                         // The units that the imported definition depends on are named in the name space of the model it comes
                         // from: a change of one of those names says nothing about the names the component uses.
                         flattenUnitsImports(clonedImportModel, units, unitsIndex, nullptr);
-                        flattenedUnits = clonedImportModel->units(unitsIndex);
+                        instantiatedImportedUnits.emplace(units, clonedImportModel->units(unitsIndex));
+                        break;
                     }
-                    unitsIndex += 1;
                 }
             }
+        }
+
+        StringStringMap unitNamesToReplace;
+        StringStringMap libraryNamesInFlatModel;
+        for (const auto &units : uniqueRequiredUnits) {
+            auto instantiated = instantiatedImportedUnits.find(units);
+            UnitsPtr flattenedUnits = (instantiated != instantiatedImportedUnits.end()) ? instantiated->second : nullptr;
 
             auto replacementUnits = (flattenedUnits != nullptr) ? flattenedUnits->clone() : units;
 
